@@ -29,6 +29,12 @@ class PropertyFailure(AssertionError):
         self.part = part
 
 
+class Runaway(BaseException):
+    """The code under test keeps polling a fake port that has nothing more to say (thousands of consecutive empty
+    reads without a write in between): the call will never return.  A BaseException, so that a broad `except
+    Exception` in the code under test cannot swallow it; the runner turns it into a property failure."""
+
+
 class BudgetExceeded(Exception):
     """A call into plotink executed more lines than its deterministic budget."""
 
